@@ -191,3 +191,10 @@ Proof.
   - intros x Hx. apply cnt_in in Hx. apply (find_none _ _ Hf) in Hx. cbn in Hx.
     apply N.eqb_neq in Hx. exact Hx.
 Qed.
+
+Lemma rm_snoc r e : cnt r e = 0 -> rm e (r ++ [e]) = r.
+Proof.
+  intros Hc. unfold rm. rewrite remove_app. cbn [remove].
+  destruct (Nat.eq_dec e e); [|congruence]. rewrite app_nil_r.
+  apply notin_remove. apply cnt_notin. exact Hc.
+Qed.
